@@ -99,14 +99,18 @@ def _own_subset(fn, prefixes):
 
 
 SPEC = {
-    "C01": dict(level="exploration", pyvc=True, extra=[],
-                text="Bounded stand-in only for the denotation: every grammar of the stated scope x 4 semirings x dtype x method against an "
-                     "independent evaluation of the definition. (Proof obligations on the dispatch of sum_products are listed when present.)"),
+    "C01": dict(level="other", pyvc=True, extra=[],
+                text="Proved: the per-component choice of the solver in sum_products (one-step iff a single acyclic nonterminal; linear for "
+                     "newton iff no rule has two edges inside the component; all other options passed through) and rename_duplicate_nodes "
+                     "(repeated external nodes are renamed apart by fresh, connected copies). Bounded stand-in for the denotation: every "
+                     "grammar of the stated scope x 4 semirings x dtype x method against an independent evaluation of the definition."),
     "C02": dict(level="other", pyvc=True, extra=[lambda ctx: _semvc_laws(ctx, only="star")],
                 text="Proved: control flow of fixed_point and newton (leaving the iteration without the stopping criterion => a warning was "
                      "issued; bounded number of evaluations of F), star(x) is the least solution of y = 1 + x*y in each semiring. Bounded: "
                      "values against an independent Kleene iteration. Convergence rates / 'error vanishes as tol does' are not decidable here."),
-    "C03": dict(level="exploration", pyvc=True, extra=[], text="Bounded stand-in: gradients against exact polynomial derivatives / central differences."),
+    "C03": dict(level="other", pyvc=True, extra=[],
+                text="Proved: rename_duplicate_nodes (the `ext + edge.nodes` overlap in the Jacobian is renamed apart correctly). Everything "
+                     "about derivatives is a bounded stand-in: gradients against exact dual-number derivatives / central differences."),
     "C04": dict(level="exploration", pyvc=True, extra=[], text="Bounded stand-in: viterbi derivations checked for well-formedness and optimality against brute force."),
     "C05": dict(level="other", pyvc=True, extra=[],
                 text="Proved: the method argument reaches tree_decomposition through factorize_fgg / factorize_hrg and selects the algorithm; "
@@ -140,20 +144,29 @@ SPEC = {
                 text="Proved: an attachment/external node number accepted by json_to_hrg is in range [0, len(nodes)); an out-of-range number "
                      "surfaces only as ValueError. Bounded: round trips, weights specifications."),
     "C15": dict(level="other", pyvc=True, extra=[],
-                text="Proved: Node/Edge construction (fresh ids, typedness), Graph.add_node / add_edge / remove_edge contracts that replace_edge "
-                     "is built from. Bounded: single replacement contract, all linearisations of derivations, derive()."),
+                text="Proved: replace_edge itself (removes exactly the edge; externals identified with the attachment nodes in order; fresh, "
+                     "label-preserving copies of all other nodes and of all edges with attachments mapped in order; rest of the graph and its "
+                     "externals untouched; ValueError and unchanged graph on a wrong type or a foreign edge) from the contracts of Node/Edge "
+                     "construction and Graph.add_node / add_edge / remove_edge, under the preconditions distinct externals and agreeing "
+                     "label tables. Bounded: all linearisations of derivations (confluence), derive()."),
     "C16": dict(level="other", pyvc=True, extra=[],
                 text="Per-operation contracts (requires wf; ensures wf + exact update of the whole view + frame; raises iff; state unchanged on "
                      "raise) on the real methods of fggs/fggs.py, VCs generated from the AST and discharged by z3 (unbounded: loops by invariant). "
-                     "HRG/FGG rule tables (lists of mutable rules) are outside the VC generator's value model: bounded breadth-first exploration of "
-                     "call histories, which also re-checks the Graph contracts natively."),
+                     "HRG.add_rule / new_rule are proved at the level of the label tables (raises iff a label conflict, tables unchanged on raise); "
+                     "the rule table itself (lists of mutable rules), copy and == of grammars are outside the VC generator's value model: bounded "
+                     "breadth-first exploration of call histories, which also re-checks the Graph contracts natively."),
     "C17": dict(level="other", pyvc=True, extra=[],
-                text="Proved: unique_label_name freshness (paired names collide with no label). Bounded: rule-level structure and derivation bijection."),
+                text="Proved: nonterminal_pairs is total on pairs of nonterminals, its names are pairwise distinct and differ from every "
+                     "existing label, each paired label has the first component's type; check_namespace_collisions returns exactly the "
+                     "conflicting pairs; unique_label_name. Bounded: rule-level structure of conjoin_rules and the derivation bijection."),
     "C18": dict(level="other", pyvc=True, extra=[_own("inplace_ownership"), _own("no_hidden_state")],
                 text="Proved (ownership analysis over the real ASTs): every in-place write in the tensor modules reaches only storage allocated in "
                      "the same call or owned by the receiver by contract; Graph.copy / copy_graph / min_fill frame conditions by pyvc. Bounded: "
                      "snapshot comparison around queries."),
-    "C19": dict(level="exploration", pyvc=True, extra=[], text="Bounded stand-in, exhaustive over all digraphs up to 4 vertices and all insertion orders; nonterminal_graph against the definition."),
+    "C19": dict(level="other", pyvc=True, extra=[],
+                text="Proved: nonterminal_graph has every nonterminal as a vertex, an edge X->Y exactly when a rule of X has an rhs edge labelled "
+                     "by the nonterminal Y, and is closed -- over a read-only view of the HRG whose accessors all_rules/rules enter as ASSUMED "
+                     "contracts. scc (Tarjan) is a bounded stand-in, exhaustive over all digraphs up to 4 vertices and all insertion orders."),
     "C20": dict(level="other", pyvc=True, extra=[],
                 text="Contracts on fggs/domains.py (numberize/denumberize mutually inverse under the representation invariant established by "
                      "__init__, contains, equality by content) and on add_domain / add_factor / shape (raises iff, unchanged on raise), discharged "
